@@ -191,7 +191,8 @@ def gen_cond(rng, depth=0):
     elif op.upper() in ('IS NULL', 'IS NOT NULL'):
         val = None
     elif op.upper() in ('LIKE', 'NOT LIKE'):
-        val = rng.choice(["a%", "%b", "_", "%", "a_b", "x'y", "A%", "", "%'%", "a\\%"])
+        val = rng.choice(["a%", "%b", "_", "%", "a_b", "x'y", "A%", "", "%'%", "a\\%",
+                          "a", "A", "AB", "Ab", "ABC", "abc", "X'Y", '"Q"'])
         if val == "a\\%":
             val = "a%"
     else:
